@@ -58,7 +58,7 @@ func c03Decl(i int) *decl.Decl {
 const c03NDecl = 10
 
 var c03Units = [][]string{
-	{""}, {"-"}, {"--"}, {"---x"}, {"-u"}, {"--unk=1"}, {"-vu"}, {"w"}, {"z"}, {"-v"}, {"-s", "val"}, {"cmd"}, {"sub"}, {"7"}, {"--color", "on"}, {`"q"`}, {"--verb"}, {"s-1"},
+	{""}, {"-"}, {"--"}, {"---x"}, {"-u"}, {"--unk=1"}, {"-vu"}, {"w"}, {"z"}, {"-v"}, {"-s", "val"}, {"cmd"}, {"sub"}, {"7"}, {"--color", "on"}, {`"q"`}, {"--verb"}, {"s-1"}, {"-c"},
 }
 
 func isSubsequence(sub, full []string) bool {
@@ -91,15 +91,30 @@ func init() {
 		di := c.Choose(c03NDecl)
 		oi := c.Choose(len(optSets))
 		hasExec := di >= 4 && di <= 8
-		mode := 0 // 0 tags, 1 api+Execute, 2 api+CommandHandler
+		mode := 0 // 0 tags, 1 api+Execute, 2 api+CommandHandler, 3 api with the options handed over by (*Group).AddOption
 		if hasExec {
-			mode = 1 + c.Choose(2)
+			mode = 1 + c.Choose(3)
 		} else {
-			mode = c.Choose(2)
+			mode = c.Choose(3)
+			if mode == 2 {
+				mode = 3
+			}
 		}
 		maxDepth := 4
 		if c.Thorough {
 			maxDepth = 5
+		}
+		if mode == 3 {
+			maxDepth--
+		}
+		// the same parser has been used before: it parsed a line that selected cmd (and sub) and used cmd's own flag; the program
+		// re-uses it as it is (these declarations have no required option, so nothing else of that parse can matter)
+		used := false
+		if hasExec {
+			used = c.Bool()
+			if used {
+				maxDepth--
+			}
 		}
 		n := c.Choose(maxDepth + 2)
 		var argv []string
@@ -127,7 +142,7 @@ func init() {
 			cache[key] = d
 		}
 		c.Describe(func() interface{} {
-			return map[string]interface{}{"declaration": di, "options": fmt.Sprintf("PassDoubleDash=%v PassAfterNonOption=%v IgnoreUnknown=%v", oi&1 != 0, oi&2 != 0, oi&4 != 0), "mode": []string{"tags", "api+Execute", "api+CommandHandler"}[mode], "argv": argv}
+			return map[string]interface{}{"declaration": di, "options": fmt.Sprintf("PassDoubleDash=%v PassAfterNonOption=%v IgnoreUnknown=%v", oi&1 != 0, oi&2 != 0, oi&4 != 0), "mode": []string{"tags", "api+Execute", "api+CommandHandler", "api, options added with AddOption"}[mode], "argv": argv, "parser_used_before": used}
 		})
 		cfg := &ref.Config{D: d}
 		res := ref.Run(cfg, argv)
@@ -139,12 +154,33 @@ func init() {
 		var b *decl.Built
 		if mode == 0 {
 			b = d.BuildTags()
+		} else if mode == 3 {
+			c.Hit("options-added-with-AddOption")
+			b = d.BuildAdded()
 		} else {
 			b = d.BuildAPI()
 		}
 		if b.Err != nil {
 			c.Fail("setup-error", b.Err.Error())
 			return
+		}
+		if used {
+			c.Hit("parser-used-before")
+			w := []string{"cmd", "-c"}
+			switch di {
+			case 5:
+				w = append(w, "a")
+			case 7:
+				w = []string{"x", "cmd", "-c"} // the first plain word fills the parser's own positional
+			case 8:
+				w = append(w, "sub")
+			}
+			wr := runParser(b, cfg, w, runOpts{CommandHandler: mode == 2})
+			if wr.Err != nil || wr.Panic != nil {
+				c.Fail("earlier-parse-rejected", fmt.Sprint(w, wr.Err, wr.Panic))
+				return
+			}
+			rezero(b)
 		}
 		rr := runParser(b, cfg, argv, runOpts{CommandHandler: mode == 2})
 		if rr.Panic != nil {
@@ -175,7 +211,7 @@ func init() {
 		switch {
 		case oi&1 != 0 && contains(argv, "--"):
 			class = "terminator"
-		case oi&4 != 0 && (contains(argv, "-u") || contains(argv, "--unk=1") || contains(argv, "-vu") || contains(argv, "--verb")):
+		case oi&4 != 0 && (contains(argv, "-u") || contains(argv, "--unk=1") || contains(argv, "-vu") || contains(argv, "--verb") || contains(argv, "-c")):
 			class = "ignored-unknown"
 		case oi&2 != 0:
 			class = "pass-after-non-option"
@@ -212,10 +248,10 @@ func init() {
 		ShardDepth: 5,
 		Body:       body,
 		Rule: "10 declarations (positional layouts none/1/2/1+rest/int, required or optional or nested executable commands with own positionals) x all 8 subsets of {PassDoubleDash, PassAfterNonOption, IgnoreUnknown} " +
-			"x {struct tags | API+Execute | API+CommandHandler} x every sequence of <= 4 (quick) / <= 5 (thorough) units over 18 units ('', -, --, ---x, a word whose second character is a dash (s-1), unknown short/long/cluster, an unknown long name that is a proper prefix of a declared one, repeated plain words, known flag, option+value, a bool-kinded Unmarshaler option + value, a token that is a quoted Go literal, command words, a number), plus beyond that bound [w, unit, unit' x {7,8,9,17}]; " +
+			"x {struct tags | API+Execute | API+CommandHandler | API with every option handed over by (*Group).AddOption, sequences one unit shorter} x {fresh parser; for the declarations with commands also a parser that has already parsed [cmd -c ...] and is re-used as it is, sequences one unit shorter} x every sequence of <= 4 (quick) / <= 5 (thorough) units over 19 units (the command's own flag -c, known only after cmd, '', -, --, ---x, a word whose second character is a dash (s-1), unknown short/long/cluster, an unknown long name that is a proper prefix of a declared one, repeated plain words, known flag, option+value, a bool-kinded Unmarshaler option + value, a token that is a quoted Go literal, command words, a number), plus beyond that bound [w, unit, unit' x {7,8,9,17}]; " +
 			"oracle = CLM remaining arguments, plus (independent of the CLM) remaining arguments must be a subsequence of argv; also compared with what Execute / CommandHandler received and with the positional fields",
 		Assumptions:  []string{"only vectors that both the model and the parser accept are compared (rejections belong to C04/C07/C08)"},
-		RequiredHits: []string{"compared", "nonempty-rest", "class:terminator", "class:ignored-unknown", "class:pass-after-non-option", "exec-args-compared"},
+		RequiredHits: []string{"compared", "nonempty-rest", "class:terminator", "class:ignored-unknown", "class:pass-after-non-option", "exec-args-compared", "parser-used-before", "options-added-with-AddOption"},
 		Bound:        [2]string{"all unit sequences of length <= 4", "all unit sequences of length <= 5"},
 		BudgetS:      [2]int{170, 1500},
 	})
